@@ -135,16 +135,20 @@ func vSubject(cn string) pkix.RDNSequence {
 	return pkix.RDNSequence{pkix.RelativeDistinguishedNameSET{pkix.AttributeTypeAndValue{Type: asn1.ObjectIdentifier{2, 5, 4, 3}, Value: cn}}}
 }
 
+// artifact states: 0 nothing, 1 cert+key, 2 cert+csr, 3 key only, 4 cert only, 5 csr only
+// hash states: 0 no stored hash, 1 equal to the current config, 2 different
+var vAllArts = []int{0, 1, 2, 3, 4, 5}
+var vAllHashes = []int{0, 1, 2}
+
 // vMakeEntity builds an entity whose artifact / metadata state is arbitrary.
 // Structure (which pointers are nil) is drawn with vChoose, i.e. by forking;
 // timestamps and hash bytes are symbolic.
 func vMakeEntity(d *vDB, ix int, parent int) *vFacts {
-	return vMakeEntityN(d, ix, parent, 6, 3)
+	return vMakeEntityN(d, ix, parent, vAllArts, vAllHashes)
 }
 
-// vMakeEntityN restricts the artifact states to the first nArt and the hash
-// states to the first nHash alternatives.
-func vMakeEntityN(d *vDB, ix int, parent int, nArt, nHash int) *vFacts {
+// vMakeEntityN restricts the artifact and hash states to the given lists.
+func vMakeEntityN(d *vDB, ix int, parent int, arts, hashes []int) *vFacts {
 	name := vName("e", ix)
 	f := &vFacts{}
 	cfg := &config.CertificateContent{Alias: name, Subject: vSubject(name)}
@@ -160,11 +164,10 @@ func vMakeEntityN(d *vDB, ix int, parent int, nArt, nHash int) *vFacts {
 	cfg.Validity.IsStatic = false
 
 	art := &BuildArtifact{}
-	state := 1
-	if nArt > 1 {
-		state = (vChoose(name+".art", nArt) + 1) % 6
+	state := arts[0]
+	if len(arts) > 1 {
+		state = arts[vChoose(name+".art", len(arts))]
 	}
-	// 0: nothing, 1: cert+key, 2: cert+csr, 3: key only, 4: cert only, 5: csr only
 	f.hasCert = state == 1 || state == 2 || state == 4
 	f.hasKey = state == 1 || state == 3
 	f.hasCsr = state == 2 || state == 5
@@ -185,9 +188,9 @@ func vMakeEntityN(d *vDB, ix int, parent int, nArt, nHash int) *vFacts {
 	f.cfgTime = vTimeIn(name + ".cfgTime")
 	meta.LastBuild = f.build
 	meta.LastConfigUpdate = f.cfgTime
-	hs := 1
-	if nHash > 1 {
-		hs = (vChoose(name+".hash", nHash) + 1) % 3
+	hs := hashes[0]
+	if len(hashes) > 1 {
+		hs = hashes[vChoose(name+".hash", len(hashes))]
 	}
 	switch hs {
 	case 0:
@@ -226,4 +229,10 @@ func vReason(strat int, f *vFacts, parent *vFacts, now time.Time) bool {
 		r = vOr(r, vAnd(strat != 0, parent.build.After(f.build)))
 	}
 	return r
+}
+
+func vNewCert(notAfter time.Time) *cert.Certificate {
+	c := &cert.Certificate{}
+	c.TBSCertificate.Validity.NotAfter = notAfter
+	return c
 }
